@@ -67,6 +67,10 @@ type propSpec struct {
 
 var verifDir = "/verif"
 
+// outDir is where evidence/ and replays/ are written (VERIF_EVIDENCE_DIR
+// redirects both for runs against scratch trees).
+var outDir = "/verif"
+
 func die(code int, format string, a ...interface{}) {
 	fmt.Fprintf(os.Stderr, "check: "+format+"\n", a...)
 	os.Exit(code)
@@ -111,6 +115,10 @@ func main() {
 	}
 	if d := os.Getenv("VERIF_DIR"); d != "" {
 		verifDir = d
+		outDir = d
+	}
+	if d := os.Getenv("VERIF_EVIDENCE_DIR"); d != "" {
+		outDir = d
 	}
 	spec, ok := specs[prop]
 	if !ok {
@@ -122,7 +130,7 @@ func main() {
 	}
 	start := time.Now()
 	// replay artefacts of earlier runs of this property are stale
-	if old, _ := filepath.Glob(filepath.Join(verifDir, "replays", prop+"-*.json")); replay == "" {
+	if old, _ := filepath.Glob(filepath.Join(outDir, "replays", prop+"-*.json")); replay == "" {
 		for _, f := range old {
 			os.Remove(f)
 		}
@@ -157,14 +165,27 @@ func build(repo, scratch string, race bool) (string, *rewrite.Result, error) {
 		bin += "-race"
 		args = []string{"build", "-race", "-overlay", res.Overlay, "-tags", "verif", "-o", bin}
 	}
+	if repo != "/repo" {
+		// the harness module replaces sod by /repo: build with an alternate go.mod
+		// that points at the other tree (used to run checks on scratch copies)
+		gm, err := os.ReadFile(filepath.Join(verifDir, "go.mod"))
+		if err != nil {
+			return "", nil, err
+		}
+		alt := strings.Replace(string(gm), "=> /repo", "=> "+repo, 1)
+		modfile := filepath.Join(scratch, "go.mod")
+		if err := os.WriteFile(modfile, []byte(alt), 0644); err != nil {
+			return "", nil, err
+		}
+		if gs, err := os.ReadFile(filepath.Join(verifDir, "go.sum")); err == nil {
+			os.WriteFile(filepath.Join(scratch, "go.sum"), gs, 0644)
+		}
+		args = append(args[:1], append([]string{"-modfile", modfile}, args[1:]...)...)
+	}
 	args = append(args, "./harness")
 	cmd := exec.Command("go", args...)
 	cmd.Dir = verifDir
 	cmd.Env = goEnv()
-	if repo != "/repo" {
-		// the harness module replaces sod by /repo: point it at the other tree
-		return "", nil, fmt.Errorf("VERIF_REPO other than /repo is not supported by this build path")
-	}
 	out, err := cmd.CombinedOutput()
 	if err != nil {
 		return "", res, fmt.Errorf("go build failed: %v\n%s", err, out)
@@ -380,7 +401,7 @@ func sanitize(s string) string {
 }
 
 func writeReplay(prop, sig string, v *violation) string {
-	dir := filepath.Join(verifDir, "replays")
+	dir := filepath.Join(outDir, "replays")
 	os.MkdirAll(dir, 0755)
 	path := filepath.Join(dir, prop+"-"+sanitize(strings.TrimPrefix(sig, prop+"|"))+".json")
 	doc := map[string]interface{}{"property": prop, "signature": sig, "what": v.What, "cfg": v.Cfg, "path": v.Path, "more": v.More}
@@ -462,8 +483,11 @@ func writeEvidence(prop, tier string, seed int64, spec propSpec, m *merged, rw *
 	if err != nil {
 		return err
 	}
-	os.MkdirAll(filepath.Join(verifDir, "evidence"), 0755)
-	return os.WriteFile(filepath.Join(verifDir, "evidence", prop+".json"), data, 0644)
+	if strings.HasPrefix(prop, "SELF") {
+		return nil
+	}
+	os.MkdirAll(filepath.Join(outDir, "evidence"), 0755)
+	return os.WriteFile(filepath.Join(outDir, "evidence", prop+".json"), data, 0644)
 }
 
 func collectRaces(prop string, m *merged) {
